@@ -208,10 +208,24 @@ def kindFlag : PaxKind → Nat
   | .sparseMajor => PAX_SPARSE_GNU_1_X | .sparseMinor => PAX_SPARSE_GNU_1_X
   | .schily => 0 | .libarchive => 0 | .sparseMap => 0
 
+/-- GNU tar's `xattr_decode_keyword`, applied by the **repaired** `pax_xattr_schily` (`fixes/C04-xattr-key-escape.patch`):
+    "%25" → '%', "%3D" → '=', everything else verbatim -/
+def xattrDecodeKey : Bytes → Bytes
+  | 37 :: 50 :: 53 :: t => 37 :: xattrDecodeKey t
+  | 37 :: 51 :: 68 :: t => 61 :: xattrDecodeKey t
+  | c :: t => c :: xattrDecodeKey t
+  | [] => []
+
+/-- variants of `read_pax_header`: `keepOrder = true` is a hypothetical reader that appends xattrs (the real one prepends);
+    `schilyDecode = false` is the reader before `fixes/C04-xattr-key-escape.patch` (SCHILY keys taken verbatim) -/
+structure PaxCfg where
+  keepOrder : Bool := false
+  schilyDecode : Bool := true
+
 /-- `apply_handler`; `value` = the bytes between '=' and the record's last byte (which was overwritten by NUL) -/
-def applyHandler (keepOrder : Bool) (out : Decoded) (k : PaxKind) (key value : Bytes) : Option Decoded :=
+def applyHandler (pc : PaxCfg) (out : Decoded) (k : PaxKind) (key value : Bytes) : Option Decoded :=
   -- the C code prepends (`xattr->next = out->xattr`), i.e. `keepOrder = false`: a member's xattrs come out in reverse archive order
-  let add (l : List (Bytes × Bytes)) (x : Bytes × Bytes) := if keepOrder then l ++ [x] else x :: l
+  let add (l : List (Bytes × Bytes)) (x : Bytes × Bytes) := if pc.keepOrder then l ++ [x] else x :: l
   let sval := cstr value
   match k with
   | .uid => (parseUint sval).map fun v => { out with uid := v.1 }
@@ -225,7 +239,8 @@ def applyHandler (keepOrder : Bool) (out : Decoded) (k : PaxKind) (key value : B
   | .linkpath => some { out with link := some sval }
   | .sparseMajor => some out
   | .sparseMinor => some out
-  | .schily => some { out with xattr := add out.xattr (key.drop 13, value) }            -- "SCHILY.xattr."
+  | .schily =>                                                                          -- "SCHILY.xattr."
+    some { out with xattr := add out.xattr (if pc.schilyDecode then xattrDecodeKey (key.drop 13) else key.drop 13, value) }
   | .libarchive =>
     match base64Decode value with
     | none => none
@@ -258,9 +273,30 @@ structure PaxState where
   sparseStarted : Bool := false        -- `sparse_last != NULL`
   offset : Nat := 0                    -- last "GNU.sparse.offset"
 
+/-- what `read_pax_header` does with one parsed record `key=value` of total length `len`: the handler table
+    (`find_handler` / `apply_handler`, `set_by_pax |= flag`), else the two GNU.sparse 0.0 keywords, else ignore -/
+def paxApply (pc : PaxCfg) (st : PaxState) (key value : Bytes) (len : Nat) : Option (PaxState × Nat) :=
+  match findHandler key with
+  | some k =>
+    match applyHandler pc st.out k key value with
+    | none => none
+    | some o => some ({ st with out := o, mask := setFlag st.mask (kindFlag k) }, len)
+  | none =>
+    if key = ascii "GNU.sparse.offset" then
+      match parseUint (cstr value) with
+      | none => none
+      | some (v, _) => some ({ st with offset := v }, len)
+    else if key = ascii "GNU.sparse.numbytes" then
+      match parseUint (cstr value) with
+      | none => none
+      | some (v, _) =>
+        let sp := if st.sparseStarted then st.out.sparse ++ [(st.offset, v)] else [(st.offset, v)]
+        some ({ st with out := { st.out with sparse := sp }, sparseStarted := true }, len)
+    else some (st, len)
+
 /-- one iteration of the `for (line = buffer; line < end; line += len)` loop on the remaining bytes `l`;
     result: new state and `len` -/
-def paxLine (keepOrder : Bool) (st : PaxState) (l : Bytes) : Option (PaxState × Nat) :=
+def paxLine (pc : PaxCfg) (st : PaxState) (l : Bytes) : Option (PaxState × Nat) :=
   match strtol10 l with
   | none => none                                               -- `ptr == line`
   | some (neg, len, p) =>
@@ -280,37 +316,20 @@ def paxLine (keepOrder : Bool) (st : PaxState) (l : Bytes) : Option (PaxState ×
           match after with
           | 61 :: valueArea =>
             if key.isEmpty then none
-            else
-              let value := valueArea.dropLast                  -- `len - (value - line) - 1` bytes
-              match findHandler key with
-              | some k =>
-                match applyHandler keepOrder st.out k key value with
-                | none => none
-                | some o => some ({ st with out := o, mask := setFlag st.mask (kindFlag k) }, len)
-              | none =>
-                if key = ascii "GNU.sparse.offset" then
-                  match parseUint (cstr value) with
-                  | none => none
-                  | some (v, _) => some ({ st with offset := v }, len)
-                else if key = ascii "GNU.sparse.numbytes" then
-                  match parseUint (cstr value) with
-                  | none => none
-                  | some (v, _) =>
-                    let sp := if st.sparseStarted then st.out.sparse ++ [(st.offset, v)] else [(st.offset, v)]
-                    some ({ st with out := { st.out with sparse := sp }, sparseStarted := true }, len)
-                else some (st, len)
+            else paxApply pc st key valueArea.dropLast         -- value: `len - (value - line) - 1` bytes
+                   len
           | _ => none
 
-def paxLoop (keepOrder : Bool) : Nat → PaxState → Bytes → Option PaxState
+def paxLoop (pc : PaxCfg) : Nat → PaxState → Bytes → Option PaxState
   | 0, _, _ => none
   | f + 1, st, l =>
     if l.isEmpty then some st
-    else match paxLine keepOrder st l with
+    else match paxLine pc st l with
       | none => none
-      | some (st', len) => paxLoop keepOrder f st' (l.drop len)
+      | some (st', len) => paxLoop pc f st' (l.drop len)
 
 /-- `read_pax_header` on the `entsize` payload bytes: new header and `set_by_pax` -/
-def readPaxHeader (keepOrder : Bool) (payload : Bytes) (out : Decoded) (mask : Nat) : Option (Decoded × Nat) :=
-  (paxLoop keepOrder (payload.length + 1) { out := out, mask := mask } payload).map fun st => (st.out, st.mask)
+def readPaxHeader (pc : PaxCfg) (payload : Bytes) (out : Decoded) (mask : Nat) : Option (Decoded × Nat) :=
+  (paxLoop pc (payload.length + 1) { out := out, mask := mask } payload).map fun st => (st.out, st.mask)
 
 end Sqfs.Tar
